@@ -79,8 +79,12 @@ class BehGen:
         if k == "cmp":
             return f"({self.expr(d - 1)} {ch.choice(CMPS, 'cmp')} {self.expr(d - 1)})"
         if k == "neg":
+            if self.allow_calls and ch.chance(1, 3, "negcall"):
+                return f"(-{ch.choice(['clz32', 'clo32', 'revbit32'], 'nfn')}({self.atom()}))"
             return f"(-{self.atom()})"
         if k == "not":
+            if ch.chance(1, 4, "notmacro"):
+                return f"(~extract32({self.atom()}, 0, 8))"
             return f"(~{self.atom()})"
         if k == "lnot":
             return f"(!{self.atom()})"
@@ -112,6 +116,8 @@ class BehGen:
                          ("store", 2), ("jump", 1), ("ea", 2), ("assign64", 2), ("aliaswrite", 1), ("empty", 1),
                          ("cancel", 1), ("post", 1 if self.locals else 0)], "stmt")
         if k == "assign":
+            if ch.chance(1, 8, "chain"):
+                return f"{ch.choice(DST32 + PDST + PEXPL, 'dst')} = {ch.choice(DST32 + RW32 + PDST + PEXPL, 'dst2')} = {self.expr(1)};"
             return f"{ch.choice(DST32 + RW32, 'dst')} = {self.expr(2)};"
         if k == "assign64":
             return f"RddV = {ch.choice(SRC64 + ['((int64_t) RsV)', '((uint64_t) RtV)'], 's64')};"
@@ -142,7 +148,7 @@ class BehGen:
         if k == "ea":
             return f"EA = {ch.choice(SRC32, 'eb')} + {ch.choice(IMM + ['0'], 'eo')};"
         if k == "aliaswrite":
-            return f"{ch.choice(['HEX_REG_ALIAS_LR', 'HEX_REG_ALIAS_LC0', 'HEX_REG_ALIAS_SA0'], 'aw')} = {self.expr(1)};"
+            return f"{ch.choice(['HEX_REG_ALIAS_LR', 'HEX_REG_ALIAS_LC0', 'HEX_REG_ALIAS_SA0', 'HEX_REG_ALIAS_PC', 'HEX_REG_ALIAS_USR'], 'aw')} = {self.expr(1)};"
         if k == "empty":
             return ";"
         if k == "cancel":
@@ -240,6 +246,17 @@ HANDWRITTEN = [
     "{ if (RsV) { P0 = 0xff; } else { PdV = 0; } }",
     "{ RdV = NsN; }",
     "{ mem_store_u8(EA, NtN); }",
+    # statement-expressions ending in a macro / call, macros and calls as ?: arms, unary operators on calls and macros
+    "{ RdV = ({ RxV = 1; extract32(RsV, 0, 8); }); }",
+    "{ RdV = PuV ? extract32(RsV, 0, 8) : RtV; }",
+    "{ RdV = ({ int32_t w = RsV; clz32(w); }); }",
+    "{ RdV = (RsV ? ({ RxV = 2; clz32(RtV); }) : 0); }",
+    "{ RdV = -clz32(RsV); }", "{ RdV = -extract32(RsV, 0, 8); }", "{ RdV = ~clz32(RsV); }", "{ RdV = clz32(RsV); }",
+    "{ RdV = extract32(RsV, 0, 8) + 1; }", "{ RddV = -sextract64(RssV, 0, 16); }", "{ RdV = -revbit32(RtV); }",
+    # chained assignments, aliases whose name starts with p
+    "{ P0 = P1 = 0xff; }", "{ PdV = RdV = RsV; }", "{ RdV = ReV = RsV + 1; }", "{ P3 = PdV = 0; }",
+    "{ HEX_REG_ALIAS_PC = RsV; }", "{ HEX_REG_ALIAS_PKTCOUNT = RssV; }", "{ RdV = HEX_REG_ALIAS_PC + 4; }",
+    "{ RdV = get_npc(pkt); }", "{ RdV = get_npc(pkt) + siV; }",
 ]
 
 
